@@ -32,6 +32,14 @@ class SOpt:
         return f'SOpt({self.value!r})'
 
 
+class SSet:
+    """A finite set of integers given by its membership predicate (x -> z3 Bool).  Only built
+    from sequences by set(), difference, union and intersection, hence finite."""
+
+    def __init__(self, member):
+        self.member = member
+
+
 class SSlice:
     def __init__(self, start, stop, step=None):
         self.start, self.stop, self.step = start, stop, step
